@@ -8,6 +8,14 @@ rev; for implicit components after a Newton solve, against the implicit-function
 reference) are compared with the direct evaluation and its complex-step derivative.  Coloring /
 sparsity detection is observed through the same comparison (a dropped or misplaced structurally
 nonzero entry is a mismatch).
+
+Histories (jax components): the sparsity pattern of a jax component is detected once, at its first linearization.
+A second family of cases therefore puts the FIRST linearization (run_linearize, compute_totals / the Newton solve, or
+check_partials) at a degenerate point - exact zeros, the default values, equal entries, zeros among generic entries -
+where structurally nonzero derivatives of functions with higher-order stationary points (cubes, cubes of differences,
+triple products, ...) vanish, and judges the linearizations at later generic points; optionally a second setup
+(also with other variable sizes) and changes of the static value (option or discrete input; possibly 0 at the start)
+happen in between.
 """
 import importlib
 import os
@@ -33,7 +41,14 @@ RULE = ('random smooth functions (sin, cos, tanh, exp(0.1 u), squares, products,
         'values and derivatives compared.  quick tier: smaller functions (depth <= 2, <= 2 outputs, shapes up to '
         '(2,3), jit for 1 case in 4) and the grid component class x declaration style x coloring x (method | '
         'matrix_free) walked round-robin (every cell >= 2 times) plus as many cheap cs/fd function components; '
-        'thorough tier: the grid is sampled at random')
+        'thorough tier: the grid is sampled at random.  Histories of jax components (quick 64, thorough 960): functions '
+        'with higher-order stationary points; first linearization {run_linearize, compute_totals/Newton, check_partials} '
+        'at a point of class {zeros, defaults (nothing set), equal entries, equal per variable, mixed, zeros among '
+        'generic entries}, then two generic points (partials, totals judged at all three); x partial declaration {none, '
+        'all, pairs} x declared in {setup_partials, setup} x coloring x jit; 30 % with a second setup before the second '
+        'point (1 in 5 histories: the second setup changes the sizes (3,) -> (2,)/(4,)/(5,) through an option); static '
+        'value as option or discrete input, changed between the points in 75 % of the cases that have one (first value '
+        '0 in 1 of 6)')
 ASSUMPTIONS = [
     'the same function body evaluated with NumPy by the harness is the reference; derivatives by complex step',
     'tolerance = 20 x spread of the reference under 1e-13 relative input perturbations (3 draws) + 64 ulp of the '
@@ -42,21 +57,39 @@ ASSUMPTIONS = [
     'the implicit-function-theorem totals are well conditioned; the reference state is solved to 1e-14',
     'undeclared (of, wrt) pairs are only left undeclared when the reference derivative is identically zero at '
     'three random points',
+    'histories: at degenerate points the conditioning estimate perturbs the operands by 1e-13 max(|x|, 1) (absolute '
+    'where x = 0); every tolerance includes 1e-50 for the truncation error h^2 f\'\'\'/6 of the complex-step reference',
+    'histories: a violation is filed under <class>/first-linearization-where-a-derivative-is-exactly-zero when every '
+    'offending jacobian entry has a reference derivative that is exactly 0.0 at three points 1e-9 around the point of '
+    'the governing first linearization (with the static value of that moment), or - with coloring - shares a row / '
+    'column with such an entry; the harness decides this from its own NumPy reference only',
 ]
-MIN_JUDGED = {'quick': 150, 'thorough': 3000}
+MIN_JUDGED = {'quick': 200, 'thorough': 3600}
 KINDS = ['ExplicitFuncComp', 'ImplicitFuncComp', 'JaxExplicitComponent', 'JaxImplicitComponent']
 REQUIRED_COUNTERS = ['kind:' + k for k in KINDS] + \
     ['obs:output', 'obs:residual', 'obs:partials', 'obs:totals-fwd', 'obs:totals-rev', 'obs:solved-state',
      'obs:coloring-used:ExplicitFuncComp', 'obs:coloring-used:ImplicitFuncComp',
      'obs:coloring-used:JaxExplicitComponent', 'cell:coloring-declared:JaxImplicitComponent',
      'cell:method-cs', 'cell:method-fd', 'cell:method-jax', 'cell:jit', 'cell:nojit', 'cell:static',
-     'cell:matrix_free', 'cell:decl-pairs', 'cell:decl-inferred', 'obs:second-point'] + \
+     'cell:matrix_free', 'cell:decl-pairs', 'cell:decl-inferred', 'obs:second-point',
+     'hist:lin-via-linearize', 'hist:lin-via-totals', 'hist:lin-via-check_partials', 'hist:declared-in-setup',
+     'hist:first-zeros', 'hist:first-defaults', 'hist:first-equal', 'hist:first-sparse-zeros',
+     'obs:hist:derivative-below-roundoff-at-first-linearization',
+     'obs:hist:judged-after-below-roundoff-derivative:JaxExplicitComponent',
+     'obs:hist:judged-after-below-roundoff-derivative:JaxImplicitComponent',
+     'obs:hist:judged-after-below-roundoff-derivative:coloring',
+     'obs:hist:judged-after-below-roundoff-derivative:nocoloring',
+     'obs:hist:judged-after-second-setup', 'obs:hist:judged-after-second-setup-with-other-sizes',
+     'obs:hist:judged-after-static-change:option', 'obs:hist:judged-after-static-change:discrete'] + \
     ['cell:%s/decl-%s/%s' % (k, d, c) for k in KINDS for d in (('none', 'all', 'pairs') if k.startswith('Jax')
                                                               else ('all', 'pairs'))
      for c in ('coloring', 'nocoloring')]
 SHARD_TIMEOUT = {'quick': 1200, 'thorough': 3600}
 
 FD_STEP = 1e-6
+# truncation error of the complex-step reference, h^2 |f'''| / 6 with h = 1e-30 (visible only where the derivative
+# itself vanishes, e.g. x**3 at 0 gives -1e-60)
+CS_TRUNC = 1e-50
 _COUNTER = [0]
 
 
@@ -84,7 +117,7 @@ def cell_name(kind, cfg):
     return 'cell:%s/decl-%s/%s' % (kind, cfg['decl'], 'coloring' if cfg['coloring'] else 'nocoloring')
 
 
-def gen_case(rng, kind, lite=False, cell=None, hiorder=False, p_static=0.3):
+def gen_case(rng, kind, lite=False, cell=None, hiorder=False, p_static=0.3, agnostic=False):
     """One case.  lite: small functions (quick tier); cell: configuration entries that are imposed; hiorder:
     functions with higher-order stationary points (histories)."""
     jaxkind = kind.startswith('Jax')
@@ -94,6 +127,8 @@ def gen_case(rng, kind, lite=False, cell=None, hiorder=False, p_static=0.3):
     methods = bool(lite and jaxkind and cell and cell.get('decl') == 'none' and not cell.get('matrix_free')
                    and not hiorder)
     kw = {'hiorder': True} if hiorder else {}
+    if agnostic:
+        kw['agnostic'] = True
     if kind in ('ExplicitFuncComp', 'JaxExplicitComponent'):
         fd = F.gen_explicit(rng, with_static=with_static, lite=lite, methods=methods, **kw)
     else:
@@ -189,15 +224,28 @@ def _point(rng, cls, shapes):
     return pt
 
 
-def gen_hist_case(rng, kind, cell, first, lin_via):
-    case = gen_case(rng, kind, lite=True, cell=cell, hiorder=True, p_static=0.4)
+def _with_n(fd, n):
+    """Copy of a shape-agnostic function description with every (3,) replaced by (n,)."""
+    fd2 = dict(fd)
+    for k in ('inputs', 'outputs', 'states'):
+        if k in fd:
+            fd2[k] = {v: ([n] if list(shp) == list(F.AGNOSTIC_SHAPE) else list(shp)) for v, shp in fd[k].items()}
+    return fd2
+
+
+def gen_hist_case(rng, kind, cell, first, lin_via, reshape=False):
+    """reshape: the second setup changes the variable sizes (an option of the component gives n)."""
+    case = gen_case(rng, kind, lite=True, cell=cell, hiorder=True, p_static=0.4, agnostic=reshape)
     fd, cfg = case['fdesc'], case['cfg']
     cfg.setdefault('decl_where', 'setup_partials')
+    # the functions of the histories are larger: executed eagerly, every primitive (and its jvp / vmap rule) is
+    # dispatched and compiled per operand shape, which costs more than one jit compilation of the whole function
+    cfg['use_jit'] = bool(rng.random() < 0.6)
     shapes = dict(fd['inputs'])
     shapes.update(fd.get('states', {}))
-    h = {'first': first, 'lin_via': lin_via, 'resetup': None, 'static_seq': None}
+    h = {'first': first, 'lin_via': lin_via, 'resetup': None, 'static_seq': None, 'reshape': None}
     classes = [first, 'generic', 'generic']
-    if rng.random() < 0.3:
+    if reshape or rng.random() < 0.3:
         # second setup: its first linearization is the degenerate one (the first setup saw a generic or another
         # degenerate point)
         h['resetup'] = 1
@@ -211,6 +259,12 @@ def gen_hist_case(rng, kind, cell, first, lin_via):
             h['static_seq'] = [float(v0), g[1], g[2]]
             cfg['static_val'] = float(v0)
     case['points'] = [_point(rng, c, shapes) for c in classes]
+    if reshape:
+        h['reshape'] = int(pick(rng, [2, 4, 5]))
+        case['fdesc2'] = _with_n(fd, h['reshape'])
+        shapes2 = dict(case['fdesc2']['inputs'])
+        shapes2.update(case['fdesc2'].get('states', {}))
+        case['points'][1:] = [_point(rng, c, shapes2) for c in classes[1:]]
     case['hist'] = h
     return case
 
@@ -218,8 +272,8 @@ def gen_hist_case(rng, kind, cell, first, lin_via):
 # ----------------------------------------------------------------------------------------------
 # reference function (NumPy rendering, executed directly by the harness)
 # ----------------------------------------------------------------------------------------------
-def reference_callable(case):
-    fd, cfg = case['fdesc'], case['cfg']
+def reference_callable(case, fd=None):
+    fd, cfg = fd or case['fdesc'], case['cfg']
     implicit = 'states' in fd
     rets = ['r%d' % k for k in range(len(fd['states']))] if implicit else list(fd['outputs'])
     args = list(fd['inputs']) + (list(fd['states']) if implicit else [])
@@ -327,31 +381,38 @@ def build_jaxcomp(case, refcall):
     base = 'om.JaxImplicitComponent' if implicit else 'om.JaxExplicitComponent'
     L = ['class Comp(%s):' % base]
     discrete = bool(fd['static']) and cfg.get('static_kind') == 'discrete'
+    nopt = bool((case.get('hist') or {}).get('reshape'))     # sizes given by the option 'n'
+
+    def shp(s):
+        return "(self.options['n'],)" if nopt and tuple(s) == F.AGNOSTIC_SHAPE else repr(tuple(s))
+    if (fd['static'] and not discrete) or nopt:
+        L.append('    def initialize(self):')
+        if nopt:
+            L.append("        self.options.declare('n', default=%d)" % F.AGNOSTIC_SHAPE[0])
     if fd['static'] and not discrete:
-        L += ['    def initialize(self):',
-              "        self.options.declare('kopt', default=%r)" % cfg['static_val'],
+        L += ["        self.options.declare('kopt', default=%r)" % cfg['static_val'],
               '    def get_self_statics(self):',
               "        return (self.options['kopt'],)"]
     L.append('    def setup(self):')
     for n, s in fd['inputs'].items():
         # a scalar `val` means "default_shape" (1,) for a component, so () must be given as shape
         if cfg['shape_decl'] == 'shape' or tuple(s) == ():
-            L.append('        self.add_input(%r, shape=%r)' % (n, tuple(s)))
+            L.append('        self.add_input(%r, shape=%s)' % (n, shp(s)))
         else:
-            L.append('        self.add_input(%r, val=np.ones(%r))' % (n, tuple(s)))
+            L.append('        self.add_input(%r, val=np.ones(%s))' % (n, shp(s)))
     if implicit:
         ofs = list(fd['states'])
         wrts = list(fd['inputs']) + list(fd['states'])
         shapes_in = [tuple(s) for s in fd['inputs'].values()] + [tuple(s) for s in fd['states'].values()]
         for n, s in fd['states'].items():
-            L.append('        self.add_output(%r, shape=%r)' % (n, tuple(s)))
+            L.append('        self.add_output(%r, shape=%s)' % (n, shp(s)))
         rets = ['r%d' % k for k in range(len(fd['states']))]
     else:
         ofs = list(fd['outputs'])
         wrts = list(fd['inputs'])
         shapes_in = [tuple(s) for s in fd['inputs'].values()]
         for n, s in fd['outputs'].items():
-            L.append('        self.add_output(%r, shape=%r)' % (n, tuple(s)))
+            L.append('        self.add_output(%r, shape=%s)' % (n, shp(s)))
         rets = list(fd['outputs'])
     if discrete:
         L.append("        self.add_discrete_input('kopt', val=%r)" % cfg['static_val'])
@@ -408,6 +469,9 @@ def _subkind(case):
                 return kind + '/jax-coloring-mode-differs-from-best-direction'
     if kind == 'ExplicitFuncComp' and c['method'] == 'jax' and len(fd['inputs']) == 1:
         return kind + '/jax-single-arg'
+    if kind.startswith('Jax') and c['coloring'] and (case.get('hist') or {}).get('reshape'):
+        # the coloring of a system outlives a setup
+        return kind + '/second-setup-changes-sizes+coloring'
     if kind.startswith('Jax') and c.get('static_kind') == 'discrete' and not c['use_jit'] and \
             (case.get('hist') or {}).get('static_seq'):
         # without jit nothing signals a changed discrete value to the function that computes the jacobian
@@ -496,6 +560,7 @@ def _cmp(ctx, obs, label, got, ref, tol, blk=False):
         ctx.viol(obs + '-shape', '%s has size %d, expected %d' % (label, got.size, ref.size))
         return False
     got = got.reshape(ref.shape)
+    tol = tol + CS_TRUNC
     if not np.all(np.isfinite(got)) or np.any(np.abs(got - ref) > tol):
         expl = False
         if blk is not False and np.all(np.isfinite(got)):
@@ -555,6 +620,37 @@ def _fd_bound(refcall, xs, J0, o0):
     return B
 
 
+def _sized_ivc(om, shapes):
+    """IndepVarComp whose (3,) outputs follow its option 'n' (histories whose second setup changes the sizes)."""
+    class SizedIvc(om.IndepVarComp):
+        def initialize(self):
+            super().initialize()
+            self.options.declare('n', default=F.AGNOSTIC_SHAPE[0])
+
+        def setup(self):
+            for name, s in shapes.items():
+                self.add_output(name, val=np.ones((self.options['n'],) if tuple(s) == F.AGNOSTIC_SHAPE else tuple(s)))
+    return SizedIvc()
+
+
+def _structure(refcall, fd, in_names, st_names, out_names, implicit):
+    """Structurally nonzero entries of the full jacobian (reference at two generic points with a generic static value)
+    and the row / column offsets of its blocks."""
+    keep = refcall.static[0]
+    refcall.static[0] = 1.2345
+    grng = np.random.default_rng(4321)
+    allshapes = [tuple(fd['inputs'][n]) for n in in_names] + [tuple(fd['states'][n]) for n in st_names]
+    S = None
+    for _ in range(2):
+        Jg = np.block(cs_jac(refcall, [grng.uniform(-1.5, 1.5, size=shp) for shp in allshapes])[1])
+        S = (Jg != 0) if S is None else (S | (Jg != 0))
+    refcall.static[0] = keep
+    osz = [F.size(fd['states'][n]) if implicit else F.size(fd['outputs'][n]) for n in out_names]
+    roff = [int(v) for v in np.concatenate([[0], np.cumsum(osz)])]
+    coff = [int(v) for v in np.concatenate([[0], np.cumsum([F.size(shp) for shp in allshapes])])]
+    return S, roff, coff
+
+
 def judge(case, acc, seed=0):
     import openmdao.api as om
     kind, fd, cfg = case['kind'], case['fdesc'], case['cfg']
@@ -591,17 +687,25 @@ def judge(case, acc, seed=0):
             comp, src, modname = (build_jaxcomp if jaxkind else build_funccomp)(case, refcall)
             case['source'] = src
             prob = om.Problem()
-            ivc = prob.model.add_subsystem('ivc', om.IndepVarComp())
-            for n, s in fd['inputs'].items():
-                ivc.add_output(n, val=np.ones(tuple(s)))
-            prob.model.add_subsystem('c', comp)
+            if (case.get('hist') or {}).get('reshape'):
+                ivc = prob.model.add_subsystem('ivc', _sized_ivc(om, fd['inputs']))
+            else:
+                ivc = prob.model.add_subsystem('ivc', om.IndepVarComp())
+                for n, s in fd['inputs'].items():
+                    ivc.add_output(n, val=np.ones(tuple(s)))
+            # a Newton solver does not accept discrete variables in its group: an implicit component with a discrete
+            # input is solved in a subgroup, the (automatic) source of the discrete input stays outside
+            nested = bool(implicit and fd['static'] and cfg.get('static_kind') == 'discrete')
+            holder = prob.model.add_subsystem('g', om.Group()) if nested else prob.model
+            cp = 'g.c.' if nested else 'c.'
+            holder.add_subsystem('c', comp)
             for n in in_names:
-                prob.model.connect('ivc.' + n, 'c.' + n)
+                prob.model.connect('ivc.' + n, cp + n)
             if implicit:
-                prob.model.linear_solver = om.DirectSolver(assemble_jac=False) if cfg.get('matrix_free') \
+                holder.linear_solver = om.DirectSolver(assemble_jac=False) if cfg.get('matrix_free') \
                     else om.DirectSolver()
-                prob.model.nonlinear_solver = om.NewtonSolver(solve_subsystems=False, maxiter=40, atol=1e-13,
-                                                              rtol=1e-14, iprint=-1)
+                holder.nonlinear_solver = om.NewtonSolver(solve_subsystems=False, maxiter=40, atol=1e-13,
+                                                          rtol=1e-14, iprint=-1)
             prob.setup(mode=cfg['mode'])
             prob.final_setup()
         except Exception as e:
@@ -619,22 +723,20 @@ def judge(case, acc, seed=0):
                 acc.count('hist:static-change-' + cfg['static_kind'])
             if cfg.get('decl_where') == 'setup' and cfg['decl'] != 'none':
                 acc.count('hist:declared-in-setup')
-            # structurally nonzero entries of the full jacobian: reference at two generic points, generic static value
-            keep = refcall.static[0]
-            refcall.static[0] = 1.2345
-            grng = np.random.default_rng(4321)
-            allshapes = [tuple(fd['inputs'][n]) for n in in_names] + [tuple(fd['states'][n]) for n in st_names]
-            for _ in range(2):
-                Jg = np.block(cs_jac(refcall, [grng.uniform(-1.5, 1.5, size=shp) for shp in allshapes])[1])
-                S = (Jg != 0) if S is None else (S | (Jg != 0))
-            refcall.static[0] = keep
-            osz = [F.size(fd['states'][n]) if implicit else F.size(fd['outputs'][n]) for n in out_names]
-            ctx.roff = [int(v) for v in np.concatenate([[0], np.cumsum(osz)])]
-            ctx.coff = [int(v) for v in np.concatenate([[0], np.cumsum([F.size(shp) for shp in allshapes])])]
+            if hist['reshape']:
+                acc.count('hist:resetup-changes-sizes')
+            S, ctx.roff, ctx.coff = _structure(refcall, fd, in_names, st_names, out_names, implicit)
         for pi, pt in enumerate(case['points']):
             tag = '' if pi == 0 else ':2nd-point'
             if pi > 0 and ctx.bad:
                 break
+            if hist and hist['reshape'] and pi == hist['resetup']:
+                # from here on the sizes of the second setup
+                fd = case['fdesc2']
+                static_now = refcall.static[0]
+                refcall, _ = reference_callable(case, fd)
+                refcall.static[0] = static_now
+                S, ctx.roff, ctx.coff = _structure(refcall, fd, in_names, st_names, out_names, implicit)
             xs = [np.array(pt[n], dtype=float).reshape(tuple(fd['inputs'][n])) for n in in_names]
             ss = [np.array(pt[n], dtype=float).reshape(tuple(fd['states'][n])) for n in st_names]
             allx = xs + ss
@@ -644,6 +746,7 @@ def judge(case, acc, seed=0):
                 if seq:
                     refcall.static[0] = seq[pi]
                 is_first = pi == 0 or pi == hist['resetup']
+                rs = '+resetup-changing-sizes' if hist['reshape'] else '+resetup'
                 if is_first:
                     first_idx = pi
                     ctx.Z, tiny, small = _first_point_classes(refcall, allx, seed * 31 + 7 + pi, S)
@@ -654,10 +757,10 @@ def judge(case, acc, seed=0):
                         acc.count('obs:hist:derivative-below-roundoff-at-first-linearization')
                     if ctx.Z.any():
                         acc.count('obs:hist:derivative-exactly-zero-at-first-linearization')
-                    tag = ':first-linearization-at-%s%s' % (hist['classes'][pi], '+resetup' if pi else '')
+                    tag = ':first-linearization-at-%s%s' % (hist['classes'][pi], rs if pi else '')
                 else:
                     tag = ':after-first-linearization-at-%s%s%s' % (
-                        hist['classes'][first_idx], '+resetup' if first_idx else '',
+                        hist['classes'][first_idx], rs if first_idx else '',
                         '+static-changed' if seq and seq[pi] != seq[first_idx] else '')
             if hist and hist['classes'][pi] != 'generic':
                 o0, J0, Do, DJ = _spread_abs(refcall, allx, seed * 31 + pi)
@@ -672,29 +775,39 @@ def judge(case, acc, seed=0):
             skip_lin = bool(hist and is_first and hist['lin_via'] == 'totals')
             try:
                 if hist and hist['resetup'] == pi:
+                    if hist['reshape']:
+                        comp.options['n'] = hist['reshape']
+                        ivc.options['n'] = hist['reshape']
                     prob.setup(mode=cfg['mode'])
                     prob.final_setup()
                 if hist and hist['static_seq']:
                     if cfg['static_kind'] == 'discrete':
-                        prob.set_val('c.kopt', hist['static_seq'][pi])
+                        prob.set_val(cp + 'kopt', hist['static_seq'][pi])
                     else:
                         comp.options['kopt'] = hist['static_seq'][pi]
                 if not (hist and pi == 0 and hist['classes'][0] == 'defaults'):   # defaults: nothing is set
                     for n, x in zip(in_names, xs):
                         prob.set_val('ivc.' + n, x)
                     for n, s in zip(st_names, ss):
-                        prob.set_val('c.' + n, s)
+                        prob.set_val(cp + n, s)
                 if implicit:
                     # propagate inputs without touching the states: run the ivc transfer via apply_nonlinear
                     prob.model.run_apply_nonlinear()
                     res = [np.asarray(comp._residuals[n], dtype=float).copy() for n in st_names]
                     if hist and is_first and hist['lin_via'] == 'check_partials':
+                        # check_partials runs the model first when it has not been run yet (the states move): the
+                        # point is restored afterwards
                         prob.check_partials(out_stream=None)
+                        for n, x in zip(in_names, xs):
+                            prob.set_val('ivc.' + n, x)
+                        for n, s in zip(st_names, ss):
+                            prob.set_val(cp + n, s)
+                        prob.model.run_apply_nonlinear()
                     if not skip_lin:
                         prob.model.run_linearize()
                 else:
                     prob.run_model()
-                    res = [np.asarray(prob.get_val('c.' + n), dtype=float) for n in out_names]
+                    res = [np.asarray(prob.get_val(cp + n), dtype=float) for n in out_names]
                     if hist and is_first and hist['lin_via'] == 'check_partials':
                         prob.check_partials(out_stream=None)
             except Exception as e:
@@ -729,19 +842,19 @@ def judge(case, acc, seed=0):
                         sj = dense_subjac(comp, o, w)
                         acc.count('obs:partials')
                         if sj is None:
-                            if np.any(ref != 0):
+                            if np.any(np.abs(ref) > CS_TRUNC):
                                 ctx.viol('partials-undeclared-nonzero' + tag,
                                          'd%s/d%s is not declared but the derivative is nonzero' % (o, w),
-                                         explained=bool(hist) and ctx.explains((oi, ii), ref != 0))
+                                         explained=bool(hist) and ctx.explains((oi, ii), np.abs(ref) > CS_TRUNC))
                             continue
                         _cmp(ctx, 'partials' + tag, 'partial d%s/d%s' % (o, w), sj, ref, tol, blk=blk_of(oi, ii))
             # ---- totals
             try:
                 if implicit:
                     prob.run_model()   # Newton solve from the current states
-                    sol = [np.asarray(prob.get_val('c.' + n), dtype=float).reshape(tuple(fd['states'][n]))
+                    sol = [np.asarray(prob.get_val(cp + n), dtype=float).reshape(tuple(fd['states'][n]))
                            for n in st_names]
-                tot = prob.compute_totals(of=['c.' + n for n in out_names], wrt=['ivc.' + n for n in in_names],
+                tot = prob.compute_totals(of=[cp + n for n in out_names], wrt=['ivc.' + n for n in in_names],
                                           return_format='flat_dict')
             except Exception as e:
                 ctx.viol('totals-raises:%s%s' % (type(e).__name__, tag),
@@ -798,7 +911,7 @@ def judge(case, acc, seed=0):
                             if cfg['method'] == 'fd':
                                 tol = tol + 1e-4 * condA * (np.max(np.abs(T)) + 1.0)
                             acc.count('obs:totals-' + mode)
-                            _cmp(ctx, 'totals-%s%s' % (mode, tag), 'total d%s/d%s' % (o, w), tot['c.' + o, 'ivc.' + w],
+                            _cmp(ctx, 'totals-%s%s' % (mode, tag), 'total d%s/d%s' % (o, w), tot[cp + o, 'ivc.' + w],
                                  ref, tol, blk=derived)
                             c0 += nc
                         r0 += nr
@@ -810,7 +923,7 @@ def judge(case, acc, seed=0):
                         if extra is not None:
                             tol = tol + extra[oi][ii]
                         acc.count('obs:totals-' + mode)
-                        _cmp(ctx, 'totals-%s%s' % (mode, tag), 'total d%s/d%s' % (o, w), tot['c.' + o, 'ivc.' + w],
+                        _cmp(ctx, 'totals-%s%s' % (mode, tag), 'total d%s/d%s' % (o, w), tot[cp + o, 'ivc.' + w],
                              ref, tol, blk=blk_of(oi, ii))
             if pi == 1:
                 acc.count('obs:second-point')
@@ -823,6 +936,8 @@ def judge(case, acc, seed=0):
                               ('coloring' if cfg['coloring'] else 'nocoloring'))
                 if first_idx:
                     acc.count('obs:hist:judged-after-second-setup')
+                    if hist['reshape']:
+                        acc.count('obs:hist:judged-after-second-setup-with-other-sizes')
                 if hist['static_seq'] and hist['static_seq'][pi] != hist['static_seq'][first_idx]:
                     acc.count('obs:hist:judged-after-static-change:' + cfg['static_kind'])
         # ---- evidence
@@ -874,7 +989,8 @@ def run_shard(shard, acc):
             g = rep * shard['nshards'] + shard['index'] + shard['offset'] * 7
             kind = KINDS[2 + g % 2]
             cell = HIST_CELLS[(g // 2) % len(HIST_CELLS)]
-            case = gen_hist_case(rng, kind, cell, FIRST_CLASSES[(g // 2) % len(FIRST_CLASSES)], LIN_VIA[g % len(LIN_VIA)])
+            case = gen_hist_case(rng, kind, cell, FIRST_CLASSES[(g // 2) % len(FIRST_CLASSES)], LIN_VIA[g % len(LIN_VIA)],
+                                 reshape=(g % 5 == 4))
             judge(case, acc, seed=shard['seed'] + rep)
         return
     for rep in range(shard['per']):
